@@ -134,9 +134,22 @@ func c10Real(env *core.Env) *core.Result {
 		verr     error
 		returned bool
 	)
+	var (
+		again     bool
+		verr2     error
+		outcomes2 []*notation.VerificationOutcome
+		logLen    int
+	)
 	sim.Go("client", func() {
 		gotDesc, outcomes, verr = notation.Verify(ctx, v, repo, notation.VerifyOptions{ArtifactReference: ref, MaxSignatureAttempts: N})
 		returned = true
+		logLen = len(tgt.FetchLog)
+		if len(p.Faults) == 0 && p.W("skip") == 0 {
+			// the repository client and the verifier are long-lived objects: the same request again, against the
+			// same registry content, has the same answer
+			_, outcomes2, verr2 = notation.Verify(ctx, v, repo, notation.VerifyOptions{ArtifactReference: ref, MaxSignatureAttempts: N})
+			again = true
+		}
 	})
 	sim.Run()
 	core.FinishSim(res, sim)
@@ -167,6 +180,16 @@ func c10Real(env *core.Env) *core.Result {
 	sim.Abstract(key + "->" + verdict)
 	res.Abstract = sim.AbstractHash()
 	res.Sample = map[string]any{"plan": p, "listing_in_delivery_order": flat, "registry_log": tgt.Log, "verdict": verdict, "err": fmt.Sprint(verr)}
+	if again {
+		tgt.FetchLog = tgt.FetchLog[:logLen]
+		same := (verr == nil) == (verr2 == nil) && len(outcomes) == len(outcomes2)
+		if same && verr == nil && len(outcomes) == 1 && outcomes[0] != nil && outcomes2[0] != nil {
+			same = digest.FromBytes(outcomes[0].RawSignature) == digest.FromBytes(outcomes2[0].RawSignature)
+		}
+		if !same {
+			res.Violate("C10/same-request-different-answer", key, "first call: err=%v (%d outcomes); the same call again on the same client and verifier: err=%v (%d outcomes)", verr, len(outcomes), verr2, len(outcomes2))
+		}
+	}
 	// blobs fetched, in order
 	blobIndex := map[digest.Digest]int{}
 	for i, e := range entries {
